@@ -323,6 +323,11 @@ func (r *vncRun) behaviour(i int) vnBehaviour {
 		if kind == "cfhlie" {
 			b.Style = []string{"omit", "mismatch", "none"}[lr.Intn(3)]
 		}
+		// "whatever its other peers send": every other one of these peers also
+		// repeats each cfcheckpt / cfheaders answer (no effect on what the
+		// model predicts: a peer's second answer to an all-peers query is
+		// dropped by queryAllPeers)
+		b.Dup = (r.cfg.Seed+int64(i)+int64(k))%2 == 0
 	}
 	return b
 }
